@@ -789,7 +789,7 @@ def judge(rep):
     at_eof_at_start = {}
 
     def bad(clause, dt, spec, detail):
-        ctx = context(dt) or marks_ctx[0]
+        ctx = marks_ctx[0] or context(dt)
         marks_ctx[0] = ''
         if not ctx and spec and spec[0] == 'until' and \
                 sep_shape(spec[2]) == 'nested':
@@ -1024,7 +1024,7 @@ def judge(rep):
                 elif not v and seof_here and kind == 'line':
                     pm[dt] += 1
                 elif not (term_here or escape):
-                    if empty_escape and not context(dt):
+                    if empty_escape and context(dt) != 'stale-pause':
                         marks_ctx[0] = 'empty-escape'
                     bad('partial-without-cause', dt, spec,
                         f'partial {v} but no EOF/marker there and '
